@@ -264,9 +264,12 @@ def run(index, rep, tier):
               "false_positives_and_negatives no longer returns (len(comparison - reference), len(reference - comparison)) of the two trees' own encodings: got %s" % (got,))
     fi = index.function(TC + ".symmetric_difference")
     ret = [n for n in walk_no_nested(fi.node) if isinstance(n, ast.Return)]
-    ok = len(ret) == 1 and isinstance(ret[0].value, ast.BinOp) and isinstance(ret[0].value.op, ast.Add) and \
-        {norm(ret[0].value.left), norm(ret[0].value.right)} == {"t[0]", "t[1]"} and \
-        any(call_name(c) == "false_positives_and_negatives" for c in calls_in(fi.node))
+    ok = False
+    if len(ret) == 1 and isinstance(ret[0].value, ast.BinOp) and isinstance(ret[0].value.op, ast.Add):
+        l, r = ret[0].value.left, ret[0].value.right
+        if isinstance(l, ast.Subscript) and isinstance(r, ast.Subscript) and norm(l.value) == norm(r.value) and {const_value(l.slice), const_value(r.slice)} == {0, 1}:
+            src = [n for n in walk_no_nested(fi.node) if isinstance(n, ast.Assign) and norm(n.targets[0]) == norm(l.value)]
+            ok = bool(src) and isinstance(src[0].value, ast.Call) and call_name(src[0].value) == "false_positives_and_negatives"
     rep.check(ok, "R04.5", fi.qualname, "sum of the two one-sided differences", fn_where(fi),
               "symmetric_difference = false positives + false negatives", "symmetric_difference is no longer the sum of the two one-sided differences")
 
